@@ -783,7 +783,7 @@ theorem scanRO_E (s : Scan) :
 /-! ### the document -/
 
 theorem toX_metadataTree (md : Meta) : toX (metadataTree md) = Scan.renderMeta (srcMetaOf md) := by
-  have hf : ∀ f, (mdFieldTrees md f).map toX = Scan.optText f ((alookup (.s f) md).map strT) := by
+  have hf : ∀ f, (mdFieldTrees md f).map toX = Scan.optText f ((alookup (.s f) md).map pyStrT) := by
     intro f
     unfold mdFieldTrees
     cases alookup (.s f) md <;> simp [toX_mk, Scan.optText, textElem]
